@@ -209,16 +209,13 @@ func TestVF_C01(t *testing.T) {
 	n := r.N(4000, 250000)
 	r.Require(int64(n), n/4)
 	r.Assume("replica samples within one replica have strictly increasing timestamps (TSDB guarantee)")
-	for c := 0; c < n; c++ {
-		if !r.Want(c) {
-			continue
-		}
+	r.ForEach(n, 0, func(c int) {
 		rng := r.Rand(c)
 		hist := rng.Intn(6) == 0
 		reps, class := vfGenReplicas(rng, hist)
 		f := vfkit.Pick(rng, vfNonCounterFuncs)
 		r.Guard(c, "dedup-iterator", map[string]any{"class": class, "func": f, "replicas": vfFmtReps(reps)}, func() { vfCheckC01(r, c, reps, f, class, rng) })
-	}
+	})
 }
 
 func vfCheckC01(r *vfkit.Run, c int, reps [][]vfSample, f, class string, rng *rand.Rand) {
@@ -441,10 +438,7 @@ func TestVF_C02(t *testing.T) {
 	n := r.N(6000, 300000)
 	r.Require(int64(n), n/4)
 	r.Assume("every replica's own values are non-decreasing (premise of the property)")
-	for c := 0; c < n; c++ {
-		if !r.Want(c) {
-			continue
-		}
+	r.ForEach(n, 0, func(c int) {
 		rng := r.Rand(c)
 		reps, class := vfGenCounterReplicas(rng)
 		f := vfkit.Pick(rng, vfCounterFuncs)
@@ -515,5 +509,5 @@ func TestVF_C02(t *testing.T) {
 				}
 			}
 		}
-	}
+	})
 }
